@@ -27,6 +27,15 @@ World configurations (each searched separately; a witness names its cfg):
                 True (session "*", region chat).  Oracle unchanged: the persistent subscriber sees every first receipt /
                 every unreliable receipt exactly once.  Thin send side (one send_reliable, no AB/SP/unreliable send).
 
+  reregister    as solo with a thin alphabet (chat, ids 1..2, one send_reliable per connection) plus the event ("X",), at most
+                once: the sim is unregistered (what the DisableSimulator / CloseCircuit subscribers do) and registered
+                again at the SAME address (register_region + open_circuit + is_alive, as after a teleport back / region
+                restart): new HippoClientRegion, new Circuit, both sides start their packet ids over.  The harness moves
+                its region-level subscribers to the new region; the old region's subscribers stay attached and must never
+                be called again (site ...region_by_circuit_addr:stale-region).  Same oracle on both sides of X.
+  window family (not a BFS): see window_family() -- reliable ids, a burst ("B", N) of N unreliable packets with fresh ids,
+                N around the measured dedupe window, then retransmissions: unreliable traffic must not evict reliable ids.
+
 Alphabet (events are tuples; the last field of R/AP/AA is the deviation tag):
   ("R", p, kind, rel, resent, defer, dev)
         peer datagram with packet id p in {1,2,3}; kind "chat" (ChatFromSimulator) | "ping" (StartPingCheck);
@@ -124,7 +133,8 @@ LOGIN = {
     "seed_capability": "https://127.0.0.1:4/foo",
 }
 PEER_IDS = (1, 2, 3)
-CFGS = ("solo", "shared", "prehandshake", "selfunsub")
+CFGS = ("solo", "shared", "prehandshake", "selfunsub", "reregister")
+SITE_STALE_REGION = "BaseClientSession.region_by_circuit_addr:stale-region"
 CARRIER_BASE = 100
 F_ZERO, F_REL, F_RESENT, F_ACK = 0x80, 0x40, 0x20, 0x10
 EPS = 1e-6
@@ -270,6 +280,9 @@ class World:
         self.ticks = {"short": self.interval / 3.0, "past": self.interval + 0.5, "long": (BUDGET - 1) * self.interval}
         # --- subscribers: sync, both levels, by name and wildcard (the async one is the built-in ping handler) ----
         self.log: List[Tuple[str, str, str, int]] = []
+        self.generation = 0
+        self.n_x = 0
+        self.before_x: tuple = ()
         self.selfunsub_fired: List[Tuple[str, str, str]] = []
         self.waiters: List[Any] = []
         forms = {("session", "ChatFromSimulator"): "wait_for", ("session", "StartPingCheck"): "one_shot",
@@ -278,7 +291,7 @@ class World:
         self.events = []
         for level, handler in (("session", self.session.message_handler), ("region", self.region.message_handler)):
             for key in ("ChatFromSimulator", "StartPingCheck", "*"):
-                if key == "StartPingCheck" and level == "region" and cfg == "solo":
+                if key == "StartPingCheck" and level == "region" and cfg in ("solo", "reregister"):
                     continue  # cfg "solo": the built-in async handler is the only subscriber of that region-level Event
                 if cfg == "selfunsub":
                     # a subscriber that removes itself while being notified, registered AHEAD of the persistent one
@@ -317,6 +330,34 @@ class World:
         self.retransmissions = 0
         self.completions = 0
 
+    def reregister(self):
+        """The sim goes away and comes back at the SAME address (teleport away and back, region restart): what the
+        session's DisableSimulator / CloseCircuit subscribers do (unregister_region), then what its TeleportFinish /
+        EstablishAgentCommunication subscriber and connect() do (register_region + open_circuit + is_alive) -- a new
+        HippoClientRegion and a new Circuit; the harness re-attaches its region-level subscribers to the new region."""
+        old = self.region
+        self.session.unregister_region(ADDR)
+        self.generation += 1
+        region = self.session.register_region(ADDR, seed_url=LOGIN["seed_capability"], handle=old.handle)
+        assert region is not old and self.session.open_circuit(ADDR)
+        region.circuit.is_alive = True
+        self.region, self.circuit = region, region.circuit
+        self.events = self.events[:3]  # session-level Events stay
+        for key in ("ChatFromSimulator", "*"):
+            region.message_handler.subscribe(key, self._make_sub("region", "*" if key == "*" else "name"))
+            self.events.append(region.message_handler.register(key))
+        # what the old connection had seen stays part of the state (canon): the reset wipes every *visible* trace of it,
+        # and "traffic before AND after the re-registration" is the point of this cfg -- histories that differ in it
+        # must not be merged with the one that re-registers an untouched region
+        self.before_x = (bool(self.peer) or self.carriers > 0, any(rel for _, rel in self.peer.values()),
+                         bool(self.rsends), any(r["status"] == "pending" for r in self.rsends))
+        # model: a new connection -- both sides start their packet ids over, nothing is outstanding on the new circuit
+        self.peer, self.max_peer = {}, 0
+        self.rsends, self.issued, self.last_issued = [], [], None
+        self.n_sr = self.n_sends = self.n_sp = 0  # the per-history send caps count per connection
+        self.ack_debt, self.ping_owed, self.ping_seen = {}, {}, {}
+        self.echo_msg = None
+
     def _make_selfunsub(self, level, key, form):
         def _leaver(msg):
             self.selfunsub_fired.append((level, key, form))
@@ -324,8 +365,12 @@ class World:
         return _leaver
 
     def _make_sub(self, level, which):
+        gen = self.generation
+
         def _sub(msg):
-            self.log.append((level, which, msg.name, msg.packet_id))
+            # a subscriber of a region object that has been unregistered must never be called again
+            lvl = level if (level != "region" or gen == self.generation) else "stale-region"
+            self.log.append((lvl, which, msg.name, msg.packet_id))
             if level == "session" and which == "*":
                 self.last_rx = msg
         return _sub
@@ -338,9 +383,9 @@ class Harness:
         assert cfg in CFGS
         self.cfg = cfg
         self.kinds = {"solo": ("chat", "ping"), "shared": ("ping",), "prehandshake": ("chat",),
-                      "selfunsub": ("chat", "ping")}[cfg]
-        self.peer_ids = PEER_IDS if cfg != "prehandshake" else PEER_IDS[:2]
-        if cfg == "selfunsub":  # differs from solo/shared on the dispatch side only: a thin send side suffices
+                      "selfunsub": ("chat", "ping"), "reregister": ("chat",)}[cfg]
+        self.peer_ids = PEER_IDS if cfg not in ("prehandshake", "reregister") else PEER_IDS[:2]
+        if cfg in ("selfunsub", "reregister"):  # differs from solo/shared on the dispatch side only: a thin send side suffices
             max_sr, max_su, max_sp = min(max_sr, 1), 0, 0
         self.site_resend = SITE_RESEND if cfg != "prehandshake" else SITE_RESEND_NOT_ALIVE
         self.mute = set(tuple(m) for m in mute)
@@ -352,7 +397,7 @@ class Harness:
     def subs_for(self, level: str, name: str):
         if name not in NAME.values():
             return ("*",)
-        if name == "StartPingCheck" and level == "region" and self.cfg == "solo":
+        if name == "StartPingCheck" and level == "region" and self.cfg in ("solo", "reregister"):
             return ("*",)
         return ("name", "*")
 
@@ -416,6 +461,8 @@ class Harness:
                     evs.append(("SP", which, rel, 1))
             if w.echo_msg is not None:
                 evs.append(("SP", "echo", 1 if int(w.echo_msg.send_flags) & F_REL else 0, 1))
+        if self.cfg == "reregister" and w.n_x < 1:
+            evs.append(("X",))  # the sim is unregistered and registered again at the same address
         if not w.alive:
             evs.append(("H",))  # the handshake completes: connect() marks the circuit alive
         if w.n_sr < self.max_sr:
@@ -455,7 +502,7 @@ class Harness:
         return (tuple(c.seen_reliable), c.packet_id_base, unacked, c.is_alive, ready, timers,
                 tuple(sorted(w.peer.items())), w.max_peer, sends, w.n_sends - w.n_sr, w.n_sr, w.n_sp,
                 (w.echo_msg.name, int(w.echo_msg.send_flags) & F_REL) if w.echo_msg is not None else None,
-                tuple(len(e) for e in w.events), w.alive,
+                tuple(len(e) for e in w.events), w.alive, w.generation, w.n_x, w.before_x,
                 w.last_issued,
                 self.stale_id(w), tuple(sorted(w.ack_debt)), tuple(sorted(w.ping_owed.items())),
                 tuple(sorted(w.ping_seen.items())))
@@ -632,6 +679,10 @@ class Harness:
                 self.bad(w, clause, site,
                          f"{name} id {pid} ({'reliable' if rel else 'unreliable'}, {what}): {level}-level "
                          f"subscriber [{which}] invoked {got} time(s), expected {expect}")
+        stale = [e for e in new if e[0] == "stale-region"]
+        if stale:
+            self.bad(w, "dispatch-once", SITE_STALE_REGION,
+                     f"{name} id {pid}: subscribers of the unregistered region object were called: {stale!r}")
         stray = [e for e in new if e[3] != pid]
         if stray:
             self.bad(w, "dispatch-once", "HippoClientProtocol.datagram_received:stray", f"subscribers saw {stray!r}")
@@ -640,6 +691,30 @@ class Harness:
         if name == "StartPingCheck":
             w.ping_owed[pid] = w.ping_owed.get(pid, 0) + expect
         return expect
+
+    def burst(self, w: World, n: int):
+        """Macro event: n unreliable ChatFromSimulator packets with fresh ids in a row (lean loop, bulk oracle)."""
+        base = bytearray(peer_datagram("ChatFromSimulator", 0, 0, text="burst"))
+        first_id = CARRIER_BASE + w.carriers + 1
+        w.carriers += n
+        self.account_log(w)
+        n0 = len(w.log)
+        for pid in range(first_id, first_id + n):
+            base[1:5] = pid.to_bytes(4, "big")
+            try:
+                w.proto.datagram_received(bytes(base), ADDR)
+            except Exception as e:
+                self.bad(w, "no-exception", "HippoClientProtocol.datagram_received", f"burst packet id {pid}: raised {e!r}")
+                break
+        new = w.log[n0:]
+        w.log_cursor = len(w.log)
+        for level, site in (("session", SITE_SESSION), ("region", SITE_REGION)):
+            for which in self.subs_for(level, "ChatFromSimulator"):
+                got = sum(1 for e in new if e[:3] == (level, which, "ChatFromSimulator") and first_id <= e[3] < first_id + n)
+                if got != n:
+                    self.bad(w, "unreliable-delivery", site,
+                             f"burst of {n} unreliable packets: {level}-level subscriber [{which}] invoked {got} time(s)")
+        self.check_futures(w)
 
     def step(self, w: World, ev):
         self.drain_out(w)
@@ -750,6 +825,13 @@ class Harness:
                 loop = w.loop
                 fut.add_done_callback(lambda f, rec=rec, loop=loop: rec.__setitem__("done_at", loop.time()))
                 w.rsends.append(rec)
+        elif kind == "X":
+            w.loop.run_ready()
+            self.drain_out(w)
+            w.n_x += 1
+            w.reregister()
+        elif kind == "B":
+            self.burst(w, int(ev[1]))
         elif kind == "H":
             # what HippoClientRegion.connect() does once the ack for UseCircuitCode is in
             w.circuit.is_alive = True
@@ -761,6 +843,79 @@ class Harness:
         if quiescent:
             w.loop.run_ready()
         self.end_of_step(w, quiescent)
+
+
+def dedupe_window() -> Optional[int]:
+    """Size of the circuit's resend-suppression window, measured through the public Circuit.track_reliable alone: the
+    smallest k such that after id 0 and k further fresh ids, id 0 counts as new again.  None = not reached by 5000."""
+    from hippolyzer.lib.base.message.circuit import Circuit
+
+    def evicted_after(k: int) -> bool:
+        c = Circuit(("127.0.0.1", 0), ADDR, None)
+        c.track_reliable(0)
+        for i in range(1, k + 1):
+            c.track_reliable(i)
+        return bool(c.track_reliable(0))
+
+    lo, hi = 0, None  # not evicted after lo; evicted after hi
+    for k in (1, 10, 100, 999, 1000, 1001, 2000, 5000):
+        if evicted_after(k):
+            hi = k
+            break
+        lo = k
+    if hi is None:
+        return None
+    while hi - lo > 1:  # eviction is monotone in k
+        mid = (lo + hi) // 2
+        if evicted_after(mid):
+            hi = mid
+        else:
+            lo = mid
+    return hi
+
+
+def _window_case(item):
+    """Worker: one scenario of the dedupe-window family."""
+    from hmc.core import Part
+    hist = item
+    part = Part()
+    h = Harness("solo")
+    w = h.fresh()
+    for ev in hist:
+        w.violations = []
+        h.step(w, ev)
+        for v in w.violations:
+            part.violation(v["clause"], v["site"], {"cfg": "solo", "history": [list(e) for e in hist]}, v.get("detail", ""))
+    part.count("evaluations")
+    part.count("window_scenarios")
+    part.mark_nontrivial(("window", hist))
+    part.outcome(("window", len(w.log), len(w.transport.out)))
+    return part.dump()
+
+
+def window_family(run: Run):
+    """Bounded-exhaustive scenario family for the dedupe window (a BFS cannot afford ~1000-event histories):
+    reliable ids {1} | {1,2} (chat | ping) arrive, a burst of N unreliable packets with fresh ids follows,
+    N in {W-1, W, W+1} (W = measured window; thorough adds 1 and 2W+1), then every reliable id is retransmitted (with /
+    without RESENT): unreliable traffic must not evict reliable ids from the window, so nothing is delivered twice and
+    everything is acked again.  (More than W *reliable* packets in between is out of scope: bounded memory.)"""
+    from hmc.core import pmap
+    w_size = dedupe_window()
+    run.coverage_extra["dedupe_window_measured"] = w_size
+    base = w_size if w_size is not None else 1000
+    lengths = [base - 1, base, base + 1] + ([] if run.tier == "quick" else [1, 2 * base + 1])
+    items = []
+    for ids in ((1,), (1, 2)):
+        for kind in ("chat", "ping"):
+            for n in lengths:
+                for resent in (0, 1):
+                    hist = [("R", p, kind, 1, 0, 0, 0) for p in ids] + [("B", n)]
+                    hist += [("R", p, kind, 1, resent, 0, 1) for p in ids]
+                    items.append(tuple(hist))
+    for d in pmap(_window_case, items, run.jobs):
+        run.merge(d)
+    run.coverage_extra["window_scenarios"] = len(items)
+    run.sample({"harness": "window-family", "history": [list(e) for e in items[0]]})
 
 
 def run(run: Run):
@@ -799,13 +954,20 @@ def run(run: Run):
         "returns-True subscriber registered ahead of the persistent subscriber on each Event, both levels; "
         "connect()'s own RegionHandshake wait_for is represented by the same mechanism on ChatFromSimulator / "
         "StartPingCheck, connect() itself is not run); "
-        f"at most {MAX_SP} send of a Message with a preset packet_id per history")
+        f"at most {MAX_SP} send of a Message with a preset packet_id per history; "
+        "'reregister' (unregister_region + register_region/open_circuit at the same address once per history; a new "
+        "connection restarts packet ids on both sides; sends pending on the torn-down circuit are out of scope); "
+        "dedupe-window family: only UNRELIABLE traffic lies between a reliable packet and its retransmission (a "
+        "retransmission after more than `window` reliable packets may legitimately be re-delivered); window size measured "
+        "through Circuit.track_reliable")
     muted_all = {}
     for cfg in CFGS:
         n0, keys0 = len(run.violations), dict(run._viol_keys)
         # the two cfgs added for one mechanism each (not-yet-alive circuit, self-unsubscribing subscribers) stop one event
         # short of the thorough horizon; quick searches all four to the same depth
         d = depth if cfg in ("solo", "shared") else max(QUICK_DEPTH, depth - 1)
+        if cfg == "reregister":
+            d += 1  # thin alphabet; traffic is needed on both sides of the re-registration
         # pass 1 (all clauses) runs to the quick horizon: it names the (clause, site) pairs that fail on this tree.
         # The explorer never extends a violating history, so pass 2 re-explores to the full horizon with exactly those
         # pairs muted (every other clause stays armed): what lies *behind* a known violation is still searched.
@@ -819,6 +981,7 @@ def run(run: Run):
             muted_all[cfg] = [list(f) for f in found]
         for v in run.violations[n0:]:
             v["witness"]["cfg"] = cfg
+    window_family(run)
     run.coverage_extra["muted_in_second_pass"] = muted_all
     run.coverage_extra["depth"] = depth
     run.coverage_extra["deviation_bound"] = devb
